@@ -7,6 +7,7 @@ MAC = "crates/libs/sciparse/src/proto/dataplane_path/standard/mac.rs"
 PROP = {
     "level": "model_checking",
     "clauses": [
+        "ListSegmentPlan::new [P]: up requested <=> non-core source, down requested <=> non-core destination, core requested <=> different ISDs or several cores; the requests chain from src to dst; Err only for src == dst or when no segment is needed (the lookup-plan part of 'whenever the segments can be joined at least one path is offered')",
         "K2 SolutionEdge::initialize_segment_id == beta at the first hop in travel direction (cons-dir from shortcut s: beta_s; against "
         "cons-dir: beta_{n-1}; beta of the next entry when that first hop is a peer hop), no out-of-range index (3 arbitrary entries)",
         "K1 AsEntry::update_macs through the real add_unsigned_entry (2 entries, one symbolic key per AS, MAC stubbed): MAC_i is computed "
@@ -41,6 +42,18 @@ PROP = {
                 H("c01_segid_init_l3", "B", bound="3 entries, 1 peer entry each", what="K2 SegID initialisation"),
                 H("c01_mac_chain_l2", "B", bound="2 entries, 1 peer entry each", what="K1 regular hop MAC chain", timeout=1500),
                 H("c01_kf_peer_mac_chain_l2", "B", bound="2 entries, 1 peer entry each", what="K1 peer hop MAC chain (beta_{i+1})", timeout=1500, known_finding="F-peer"),
+            ],
+        },
+        {
+            "id": "sciparse-c01-plan", "engine": "kani", "package": "sciparse",
+            "crate_dir": "crates/libs/sciparse",
+            "module": "/verif/kani/sciparse/c01_plan.rs",
+            "mod_path": "scion::segment::list_segment_plan::verif_c01_plan",
+            "hooks": [("crates/libs/sciparse/src/scion/segment/list_segment_plan.rs", "mod verif_c01_plan;")],
+            "anchors": [("crates/libs/sciparse/src/scion/segment/list_segment_plan.rs", ["plan_same_isd", "plan_cross_isd", "validate"])],
+            "functions": ["ListSegmentPlan::new", "ListSegmentPlan::plan_same_isd", "ListSegmentPlan::plan_cross_isd", "ListSegmentPlan::validate"],
+            "harnesses": [
+                H("c01_segment_plan_requests_every_needed_kind", "P", what="segment request plan: every segment kind of the route is requested, requests chain, Err only for src == dst / nothing needed"),
             ],
         },
     ],
